@@ -1,5 +1,6 @@
 import CodeLimit.Model.ProgText
 import CodeLimit.Gen.Languages
+import CodeLimit.Spec.ProgTreeCanon
 /-!
 # Driver operation for program forests (`Spec/ProgTree.lean`, `Model/ProgText.lean`)
 
@@ -132,6 +133,23 @@ def handleTree (cmd : String) (args : List String) : Option String :=
       | some (_, L) =>
         if L.python then return "bad-lang"
         else return showReply (treeOp L (Prog.ofNodes ns))
+      | none => return "bad-lang"
+  | "canon" => some <| run do
+      -- `canon <lang index> <forest>` -> `ok <0|1>`: the forest lies in the tree-level canonical fragment of
+      -- the language (`Spec/ProgTreeCanon.lean`), i.e. the UNCONDITIONAL theorems of `Props/C01full.lean`
+      -- (`scan_of_rendered_canon_tree`, `scan_java_…`, `scan_js_…`, `scan_ts_…`) apply to it
+      let li ← ptNat
+      let ns ← ptForest args.length
+      let p : Prog PTok := Prog.ofNodes ns
+      match Gen.all[li]? with
+      | some (name, _) =>
+        let c := match name with
+          | "C" | "C++" | "C#" => p.bare.Canon
+          | "Java" => p.bare.CanonJava
+          | "JavaScript" => p.bare.CanonJs
+          | "TypeScript" => p.bare.CanonTs
+          | _ => false
+        return s!"ok {showB c}"
       | none => return "bad-lang"
   | _ => none
 
